@@ -6,21 +6,67 @@ norace (build without the race detector, C12 hostile-bytes volume only).
 Floors: counters (as "<Test>.<counter>") that must reach a minimum, else the run is inconclusive.
 """
 
-CHECKS = {
-    "C07": dict(
-        level="exploration",
-        rule=("case = (seed,index)-determined PRNG workload. C07Seq: a channel of a random role in a transferring status gets "
-              "traversal-shaped block reports in three directions (sizes unique per position), verbatim replays of earlier ranges and "
-              "reopen points (new Channels on the same datastore); after every report totals/indexes must equal a running-sum model "
-              "and never decrease. C07Conc: 2-8 concurrent reporters with overlapping ranges, conservation/at-most-once/order oracles over "
-              "the subscriber snapshot stream. Non-trivial = >3 reports with a non-zero total (Seq) / >4 concurrent reports (Conc); "
-              "distinct = distinct fingerprint of (role, reopen/replay use, which totals non-zero, size classes) resp. the observed "
-              "return order of the concurrent reports."),
-        parts=[
-            dict(test="TestC07Seq", quick=160, thorough=12000, per_shard=30),
-            dict(test="TestC07Conc", quick=128, thorough=8000, per_shard=20),
-        ],
-        floors=dict(any={"TestC07Seq.reopens": 10, "TestC07Seq.replays": 20, "TestC07Conc.reports": 500}),
-        assumptions=["datastore Put is atomic", "block reports are traversal-shaped in the sequential phase (DESIGN C07)"],
-    ),
-}
+CHECKS = {}
+
+CHECKS["C07"] = dict(
+    level="exploration",
+    rule=("case = (seed,index)-determined PRNG workload. C07Seq: a channel of a random role in a transferring status gets "
+          "traversal-shaped block reports in three directions (sizes unique per position), verbatim replays of earlier ranges and "
+          "reopen points (new Channels on the same datastore); after every report totals/indexes must equal a running-sum model "
+          "and never decrease. C07Conc: 2-8 concurrent reporters with overlapping ranges, conservation/at-most-once/order oracles over "
+          "the subscriber snapshot stream. Non-trivial = >3 reports with a non-zero total (Seq) / >4 concurrent reports (Conc); "
+          "distinct = distinct fingerprint of (role, reopen/replay use, which totals non-zero, size classes) resp. the observed "
+          "return order of the concurrent reports."),
+    parts=[
+        dict(test="TestC07Seq", quick=160, thorough=12000, per_shard=30),
+        dict(test="TestC07Conc", quick=128, thorough=8000, per_shard=20),
+    ],
+    floors=dict(any={"TestC07Seq.reopens": 10, "TestC07Seq.replays": 20, "TestC07Conc.reports": 500}),
+    assumptions=["datastore Put is atomic", "block reports are traversal-shaped in the sequential phase (DESIGN C07)"],
+
+)
+
+CHECKS["C12"] = dict(
+    level="exploration",
+    rule=("C12RoundTrip: each case builds 24 messages through the library's 12 constructors with PRNG arguments (edge and random 64-bit ids, "
+          "all flags, CIDv0/v1, arbitrary nested IPLD vouchers/selectors incl. non-UTF-8, big ints, floats, links, random map key order) and checks: "
+          "observables equal after ToNet/FromNet, ToIPLD/FromIPLD and the graphsync-extension form; wire bytes equal the bytes an independent encoder "
+          "derives from the published schema; a key-permuted encoding decodes to the same message; exactly one kind; Accepted() rule. "
+          "C12Hostile: each case feeds 400 hostile inputs (structure-aware mutations, truncation, trailing bytes, bit flips, huge/indefinite lengths, random "
+          "bytes) to FromNet / FromIPLD / GetTransferData: no panic, and a message returned without error must answer every accessor. "
+          "Non-trivial: every case; distinct = distinct set of (constructor, kind, id size class, voucher present) resp. distinct batch."),
+    parts=[
+        dict(test="TestC12RoundTrip", quick=250, thorough=12500, per_shard=16),
+        dict(test="TestC12Hostile", quick=150, thorough=7500, per_shard=10),
+    ],
+    floors=dict(any={"TestC12Hostile.accepted": 100, "TestC12Hostile.rejected": 1000, "TestC12RoundTrip.ctor.NewRequest": 100}),
+    assumptions=["the independent encoder (internal/cborx, 150 lines) implements DAG-CBOR canonical form correctly"],
+
+)
+
+CHECKS["C06"] = dict(
+    level="fault_enumeration",
+    rule=("case = PRNG history of 10-80 channel events (all 28 event-sending methods, arbitrary IPLD vouchers, long messages) over 1-4 channels of "
+          "random roles on a recording datastore. Reference = the snapshot stream of the real run. Then EVERY prefix of that run's write log (each "
+          "Put/Delete boundary = crash point, enumerated exhaustively per history) is materialised in a fresh datastore, the library is reopened on it and "
+          "every accessor (incl. stage logs and voucher logs as canonical DAG-CBOR) is compared: state equals some reference state, the matched index never "
+          "goes backwards, final = last, channels present iff created, GetByID == listing; channels persisted in a cleanup status must terminate with exactly "
+          "one cleanup after restart; states returned by queries must already be in the write log. Non-trivial = history with > 4 writes; distinct = set "
+          "of statuses reached + number of channels."),
+    parts=[dict(test="TestC06Crash", quick=48, thorough=1600, per_shard=3)],
+    floors=dict(any={"TestC06Crash.crash_points": 500, "TestC06Crash.cleanup_resumed": 5, "TestC06Crash.queries": 50}),
+    assumptions=["a single datastore Put is atomic (torn writes inside one Put are out of scope)"],
+)
+
+CHECKS["C13"] = dict(
+    level="exploration",
+    rule=("case = datastore seeded with 1-40 version-2 channel records hand-encoded by the independent encoder (every one of the 19 status values, "
+          "totals up to 2^64-1, 1-5 vouchers and 0-5 results of arbitrary IPLD, 0-6 stages with 0-10 logs or nil stages, both roles/directions); 1 in 8 stores "
+          "has an undecodable record. Checks: operations refused (and no write) before Start and while migration writes are in progress; every accessor of every "
+          "migrated channel equals the v2 record (paused statuses -> Ongoing + flags); further events are accepted and persist; 1-2 more starts leave every byte "
+          "unchanged; manager: OnReady listeners registered before Start are called exactly once with the migration outcome. Non-trivial: every case; distinct = "
+          "status multiset x size class x corrupt."),
+    parts=[dict(test="TestC13Migrate", quick=96, thorough=4000, per_shard=6)],
+    floors=dict(any={"TestC13Migrate.records": 500, "TestC13Migrate.corrupt_stores": 3, "TestC13Migrate.during_attempts": 100, "TestC13Migrate.followups": 50}),
+    assumptions=["internal/cborx encodes the version-2 record layout (field names of ChannelStateV2, tuple-encoded stages) correctly"],
+)
